@@ -94,7 +94,8 @@ pub fn oracle(st: &State, hist: &[RoundRec], max_samples: usize) -> Vec<(String,
 /// Validate the reference model against the maintainers' scenario files (machinery error if it
 /// cannot reproduce their hand-computed expectations).
 fn fixture_self_test() -> usize {
-    let dir = "/repo/crates/trippy-core/tests/resources/state";
+    let dir = format!("{}/crates/trippy-core/tests/resources/state", crate::report::repo_root());
+    let dir = dir.as_str();
     let mut n = 0;
     let mut files: Vec<_> = std::fs::read_dir(dir).expect("MACHINERY: scenario dir").filter_map(Result::ok).map(|e| e.path()).collect();
     files.sort();
